@@ -388,3 +388,53 @@ def int_param_trace(seed=0, n=12):
     hdr = {"N": 2, "own": [[1], [2]], "order": [1, 2], "mh_like": [True, True], "model": "liesel_int", "seq": "rw_rate_rw_shift",
            "refused": refused, "int_param": {"seed": seed, "n": n}}
     return {"hdr": hdr, "ev": ev}
+
+
+def pit_trace(seed=0, n=10):
+    """Two RW kernels over the blocks ["m"] and ["z"] of a Liesel model built with the legacy helpers, in which a
+    probability integral transform of z (lsl.PIT) feeds the mean of the response; eager transitions through the
+    interface's model copy; derived quantities against a float64 closed form."""
+    import scipy.stats as st
+    import tensorflow_probability.substrates.jax.distributions as tfd
+
+    import liesel.model as lsl
+    from liesel.goose.epoch import EpochConfig, EpochType
+    epoch = EpochConfig(EpochType.POSTERIOR, 10, 1, None).to_state(1, 1)
+    yv = np.asarray([0.4, 0.9, 0.6], np.float32)
+    m = lsl.Param(jnp.float32(0.3), lsl.Dist(tfd.Normal, loc=0.0, scale=2.0), name="m")
+    z = lsl.Param(jnp.float32(0.1), lsl.Dist(tfd.Normal, loc=m, scale=1.0), name="z")
+    u = lsl.PIT(z)
+    y = lsl.Obs(jnp.asarray(yv), lsl.Dist(tfd.Normal, loc=u, scale=0.5), name="y")
+    model = lsl.GraphBuilder().add(y).build_model()
+    interface = gs.LieselInterface(model)
+    kernels = [gs.RWKernel(["m"], initial_step_size=0.9), gs.RWKernel(["z"], initial_step_size=0.9)]
+    for k in kernels:
+        k.set_model(interface)
+    state = model.state
+    key = jax.random.PRNGKey(seed)
+    kstates = [k.init_state(key, state) for k in kernels]
+    names = ["m", "z"]
+
+    def params(s):
+        pos = interface.extract_position(names, s)
+        return [fstr(np.asarray(pos[nm], np.float64)) for nm in names]
+
+    ev = []
+    for it in range(n):
+        for ki, kern in enumerate(kernels):
+            key, sub = jax.random.split(key)
+            before = params(state)
+            out = kern._standard_transition(sub, kstates[ki], state, epoch)
+            state = out.model_state
+            after = params(state)
+            d = interface.extract_position([u.name, "_model_log_prob"], state)
+            mm, zz = float(after[0]), float(after[1])
+            uu = st.norm(mm, 1.0).cdf(zz)
+            lp = st.norm(0, 2).logpdf(mm) + st.norm(mm, 1).logpdf(zz) + st.norm(uu, 0.5).logpdf(yv.astype(np.float64)).sum()
+            ev.append({"ev": "transition", "k": ki + 1, "kind": "rw", "moved": int(out.info.position_moved),
+                       "before": before, "after": after,
+                       "derived": [fstr(np.asarray(d[u.name], np.float64)), fstr(np.asarray(d["_model_log_prob"], np.float64))],
+                       "recomputed": [fstr(uu), fstr(lp)], "closed_form": [fstr(uu), fstr(lp)]})
+    hdr = {"N": 2, "own": [[1], [2]], "order": [1, 2], "mh_like": [True, True], "model": "liesel_pit", "seq": "rw_m_rw_z",
+           "pit": {"seed": seed, "n": n}}
+    return {"hdr": hdr, "ev": ev}
